@@ -125,8 +125,8 @@ func mkHist(kind, nb, off int, c int64) (*histogram.Histogram, *histogram.FloatH
 
 type openApp struct {
 	app     storage.Appender
-	reqs    []req    // accepted by Append (err == nil)
-	touched []uint64 // refs of series in the batches or created by this appender
+	reqs    []req          // accepted by Append (err == nil)
+	touched []uint64       // refs of series in the batches or created by this appender
 	orphan  map[int]uint64 // series index -> ref returned by Append
 }
 
